@@ -23,6 +23,11 @@ claimed = {
    note="Trusted: SendSyncRequest as coordinator boundary (assumed: any error; a response of the answering type otherwise), context.Context.Err monotone, the business callback leaves the transaction context as it found it (C07's frame), three sync.Once singletons, time/rand. 'Acknowledged' = a response arrived; its result code is not inspected (the statement does not require it). Known finding (open): a configured retry count of 0 means unbounded retries (KNOWN-FINDING lines; proved for every other configuration).",
    ref="DESIGN.md §3 C04",
    technique="contract-based deductive verification: VCs from go/ssa by symbolic execution incl. defer/recover/panic paths, ghost request counters, loop invariants and variants, discharged by cvc5/z3"),
+ "C07": dict(
+   text="Deductive proof over the real SSA of begin (all six propagation modes x transaction present/absent, against the documented semantics written down as the oracle: join = no Begin request, xid kept, role Participant; new = exactly one Begin request, Launcher, xid from the response; none = no request, no xid; Mandatory/Never errors), of WithGlobalTx's frame (a scope entered inside a global transaction leaves the enclosing xid, role and name exactly as they were, on return and on every recovered-panic path, assuming the same of the callback - induction over nesting depth covers every scope tree), and of the gRPC client/server interceptors and the dubbo filter (the xid read from metadata/attachments, under either spelling, reaches the handler's seata context unchanged and never as Launcher; the caller's xid is written to the outgoing metadata / both attachment keys unchanged). Joined scopes never end the transaction: C04/commitOrRollback/participant.",
+   note="Trusted: grpc metadata API, dubbo Invocation/Invoker, handler/invoker callbacks (arbitrary results, calls recorded), context.WithValue/Value modelled as a functional map, SendSyncRequest boundary as in C04. The gin middleware is not under contract (gin.Context internals); listed as unverified. The induction over nesting depth is a pencil step over the per-scope frame contract.",
+   ref="DESIGN.md §3 C07",
+   technique="contract-based deductive verification: VCs from go/ssa by symbolic execution, mode table as postconditions, frame postcondition with assume-guarantee on the callback, discharged by cvc5/z3"),
 }
 na = {
  "C18": "relates generated SQL text executed by MySQL to the rows another SQL text changed; needs a formal semantics of MySQL DML and of the arana-db parser AST, which no contract within reach of a self-written VC generator can express (DESIGN.md §4)",
